@@ -9,6 +9,7 @@ import (
 	"os/exec"
 	"strconv"
 	"reflect"
+	"runtime"
 	"syscall"
 	"time"
 	"runtime/debug"
@@ -155,11 +156,24 @@ func runSub(spec string, env []string, limit time.Duration) (stdout, stderr []by
 	}
 	var out, errb bytes.Buffer
 	cmd.Stdout, cmd.Stderr = &out, &errb
-	if err = cmd.Start(); err != nil {
+	// the child must not outlive this worker (a blocked child would stay for ever): it gets
+	// SIGKILL when the thread that started it ends, and that thread is pinned until the child
+	// has been waited for, so this only happens when the worker process itself dies
+	cmd.SysProcAttr = &syscall.SysProcAttr{Pdeathsig: syscall.SIGKILL}
+	started := make(chan error, 1)
+	done := make(chan error, 1)
+	go func() {
+		runtime.LockOSThread()
+		defer runtime.UnlockOSThread()
+		e := cmd.Start()
+		started <- e
+		if e == nil {
+			done <- cmd.Wait()
+		}
+	}()
+	if err = <-started; err != nil {
 		return nil, nil, err, false
 	}
-	done := make(chan error, 1)
-	go func() { done <- cmd.Wait() }()
 	deadline := time.After(limit)
 	tick := time.NewTicker(5 * time.Second)
 	defer tick.Stop()
